@@ -545,6 +545,45 @@ def h_int_pow(ex, name, args, path, depth, caller):
         yield Outcome("return", okp, IntV(val, b.bits, b.signed))
 
 
+def h_minmax(ex, name, args, path, depth, caller):
+    a, b = deref(args[0]), deref(args[1])
+    is_min = "::min" in name
+    if isinstance(a, IntV):
+        t = z3.If(a.t <= b.t, a.t, b.t) if is_min else z3.If(a.t >= b.t, a.t, b.t)
+        yield Outcome("return", path, IntV(t, a.bits, a.signed))
+        return
+    raise Unsupported("min/max of %r" % (a,))
+
+
+def h_rem_euclid(ex, name, args, path, depth, caller):
+    a, b = deref(args[0]), deref(args[1])
+    fn = name.split("::")[-1]
+    bad = path.add(b.t == 0)
+    if ex.feasible(bad):
+        yield panic(bad, "attempt to calculate the remainder with a divisor of zero", caller.name)
+    ok = path.add(b.t != 0)
+    if ex.feasible(ok):
+        m = a.t % z3.If(b.t >= 0, b.t, -b.t)       # z3: 0 <= a mod |b| < |b|
+        q = (a.t - m) / b.t
+        yield Outcome("return", ok, IntV(m if fn == "rem_euclid" else q, a.bits, a.signed))
+
+
+def h_str_pred(ex, name, args, path, depth, caller):
+    """str::contains / starts_with / ends_with on (symbolic) strings: z3 string theory"""
+    a, b = deref(args[0]), deref(args[1])
+    if isinstance(a, StrV) and isinstance(b, StrV):
+        fn = strip_generics(name).split("::")[-1]
+        if fn == "contains":
+            t = z3.Contains(a.term(), b.term())
+        elif fn == "starts_with":
+            t = z3.PrefixOf(b.term(), a.term())
+        else:
+            t = z3.SuffixOf(b.term(), a.term())
+        yield Outcome("return", path, t)
+        return
+    raise Unsupported("%s on %r" % (name, a))
+
+
 def h_int_abs(ex, name, args, path, depth, caller):
     a = deref(args[0])
     bad = path.add(a.t == a.lo())
@@ -608,10 +647,15 @@ def install(ex):
     add(r"^<(chrono::)?(TimeDelta|Duration|NaiveDateTime|NaiveDate) as PartialEq>::(eq|ne)$", h_td_cmp)
     add(r"^<(u8|u16|u32|u64|usize|i8|i16|i32|i64) as (Into|From)<(u8|u16|u32|u64|usize|i8|i16|i32|i64|f64)>>::(into|from)$", h_int_into)
     add(r"^core::num::<impl (u8|u16|u32|u64|usize|i32|i64)>::pow$", h_int_pow)
+    add(r"^core::cmp::(min|max)::<(i64|i32|u32|u64|usize)>$|^<(i64|i32|u32|u64|usize) as Ord>::(min|max)$", h_minmax)
+    add(r"^core::num::<impl (i64|i32)>::(rem_euclid|div_euclid)$", h_rem_euclid)
+    add(r"^core::str::<impl str>::(contains|starts_with|ends_with)::<&str>$", h_str_pred)
+    add(r"^core::str::<impl str>::split::<.*>$", h_opaque)
     add(r"^core::num::<impl i64>::abs$", h_int_abs)
     add(r"^core::num::<impl i64>::is_negative$", h_int_is_negative)
     ex.handlers = H + ex.handlers
     install_chrono(ex)
+    install_heap(ex)
 
 
 # ------------------------------------------------------------------ chrono: dates, times, zones
@@ -897,3 +941,201 @@ def install_chrono(ex):
     add(r"^BTreeMap::<alloc::string::String, Rc<TokenInfo>>::keys$", h_fields_keys)
     add(r"^<alloc::collections::btree_map::Keys<.*> as IntoIterator>::into_iter$", h_identity_keep)
     add(r"^<alloc::collections::btree_map::Keys<.*> as Iterator>::next$", h_keys_next)
+
+
+# ------------------------------------------------------------------ heap cells, vectors, slices, iterators
+def cur(path, ref):
+    """current value behind a reference (consults stores made on this path)"""
+    if isinstance(ref, RefV):
+        if ref.loc is not None and ref.loc in path.stores:
+            return path.stores[ref.loc]
+        return cur(path, ref.v) if isinstance(ref.v, RefV) else ref.v
+    return ref
+
+
+def conc_int(v):
+    t = z3.simplify(v.t) if isinstance(v, IntV) else v
+    if z3.is_int_value(t):
+        return t.as_long()
+    raise Unsupported("symbolic index / length")
+
+
+def h_cell_set2(ex, name, args, path, depth, caller):
+    ref = args[0]
+    val = deref(args[1])
+    if isinstance(ref, RefV) and ref.loc is not None:
+        who = str(ref.v.t) if isinstance(ref.v, IntV) else ""
+        p2 = path.store(ref.loc[0], ref.loc[1], "Cell", val).event(("cell_set", who, val))
+        yield Outcome("return", p2, UNIT)
+        return
+    cell = deref(ref)
+    who = str(cell.t) if isinstance(cell, IntV) else repr(cell)
+    yield Outcome("return", path.event(("cell_set", who, val)), UNIT)
+
+
+def h_cell_get2(ex, name, args, path, depth, caller):
+    yield Outcome("return", path, cur(path, args[0]))
+
+
+def vec_of(path, ref):
+    v = cur(path, ref)
+    if isinstance(v, VecV):
+        return v
+    raise Unsupported("vector value %r" % (v,))
+
+
+def h_vec_len(ex, name, args, path, depth, caller):
+    v = vec_of(path, args[0])
+    if name.endswith("is_empty"):
+        yield Outcome("return", path, z3.BoolVal(len(v.items) == 0))
+    else:
+        yield Outcome("return", path, IntV(len(v.items), 64, False))
+
+
+def h_vec_deref(ex, name, args, path, depth, caller):
+    yield Outcome("return", path, vec_of(path, args[0]))
+
+
+def h_vec_index(ex, name, args, path, depth, caller):
+    v = vec_of(path, args[0])
+    i = conc_int(deref(args[1]))
+    if i >= len(v.items):
+        yield panic(path, "index out of bounds: the len is %d but the index is %d" % (len(v.items), i), caller.name)
+    else:
+        yield Outcome("return", path, RefV(v.items[i]))
+
+
+def h_slice_get(ex, name, args, path, depth, caller):
+    v = vec_of(path, args[0])
+    i = conc_int(deref(args[1]))
+    yield Outcome("return", path, some(RefV(v.items[i])) if 0 <= i < len(v.items) else NONE)
+
+
+def h_vec_mut(ex, name, args, path, depth, caller):
+    ref = args[0]
+    if not (isinstance(ref, RefV) and ref.loc is not None):
+        raise Unsupported("%s on a vector that is not an object field" % name)
+    v = vec_of(path, ref)
+    op = strip_generics(name).split("::")[-1]
+    items = list(v.items)
+    ret = UNIT
+    if op == "push":
+        items.append(args[1])
+    elif op == "insert":
+        i = conc_int(deref(args[1]))
+        if i > len(items):
+            yield panic(path, "insertion index (is %d) should be <= len (is %d)" % (i, len(items)), caller.name)
+            return
+        items.insert(i, args[2])
+    elif op == "remove":
+        i = conc_int(deref(args[1]))
+        if i >= len(items):
+            yield panic(path, "removal index (is %d) should be < len (is %d)" % (i, len(items)), caller.name)
+            return
+        ret = items.pop(i)
+    else:
+        raise Unsupported("Vec::" + op)
+    yield Outcome("return", path.store(ref.loc[0], ref.loc[1], "Vec", VecV(items)), ret)
+
+
+def h_slice_iter(ex, name, args, path, depth, caller):
+    v = cur(path, args[0])
+    if isinstance(v, TupleV):
+        v = VecV(v.f)
+    if not isinstance(v, VecV):
+        raise Unsupported("iteration over %r" % (v,))
+    yield Outcome("return", path, IterV(list(v.items), 0, False))
+
+
+def h_iter_enumerate(ex, name, args, path, depth, caller):
+    it = deref(args[0])
+    yield Outcome("return", path, IterV(it.items, it.idx, True))
+
+
+def h_iter_next(ex, name, args, path, depth, caller):
+    it = deref(args[0])
+    if not isinstance(it, IterV):
+        return NotImplemented
+    if it.idx >= len(it.items):
+        return ex.ret_w(path, NONE, {0: IterV(it.items, it.idx, it.enum)})
+    el = RefV(it.items[it.idx])
+    val = TupleV([IntV(it.idx, 64, False), el]) if it.enum else el
+    return ex.ret_w(path, some(val), {0: IterV(it.items, it.idx + 1, it.enum)})
+
+
+def h_iter_skip(ex, name, args, path, depth, caller):
+    it = deref(args[0])
+    n = conc_int(deref(args[1]))
+    yield Outcome("return", path, IterV(it.items, it.idx + n, it.enum))
+
+
+def h_result_is(ex, name, args, path, depth, caller):
+    v = deref(args[0])
+    if isinstance(v, EnumV) and v.enum == "Result":
+        want = "Err" if name.endswith("is_err") else "Ok"
+        yield Outcome("return", path, z3.BoolVal(v.variant == want))
+        return
+    raise Unsupported("Result::is_* of %r" % (v,))
+
+
+def h_result_branch(ex, name, args, path, depth, caller):
+    v = deref(args[0])
+    if isinstance(v, EnumV) and v.enum == "Result":
+        if v.variant == "Ok":
+            yield Outcome("return", path, EnumV("ControlFlow", "Continue", [v.f[0]]))
+        else:
+            yield Outcome("return", path, EnumV("ControlFlow", "Break", [EnumV("Result", "Err", [v.f[0]])]))
+        return
+    raise Unsupported("Result::branch of %r" % (v,))
+
+
+def h_result_from_residual(ex, name, args, path, depth, caller):
+    v = deref(args[0])
+    yield Outcome("return", path, EnumV("Result", "Err", [v.f[0]]))
+
+
+def h_log_max_level(ex, name, args, path, depth, caller):
+    yield Outcome("return", path, OpaqueV("LevelFilter::Off"))
+
+
+def h_log_le(ex, name, args, path, depth, caller):
+    yield Outcome("return", path, z3.BoolVal(False))   # no logger installed: max_level() is Off
+
+
+def h_char_eq(ex, name, args, path, depth, caller):
+    a, b = deref(args[0]), deref(args[1])
+    r = a.t == b.t
+    yield Outcome("return", path, z3.Not(r) if name.endswith("::ne") else r)
+
+
+def h_slice_contains(ex, name, args, path, depth, caller):
+    v = cur(path, args[0])
+    x = deref(args[1])
+    items = v.items if isinstance(v, VecV) else v.f
+    yield Outcome("return", path, z3.Or([deref(i).t == x.t for i in items]) if items else z3.BoolVal(False))
+
+
+def install_heap(ex):
+    def add(rx, fn):
+        ex.handlers.insert(0, (re.compile(rx), fn))
+
+    add(r"^Cell::<.*>::set$", h_cell_set2)
+    add(r"^Cell::<.*>::get$", h_cell_get2)
+    add(r"^Vec::<.*>::(len|is_empty)$|^core::slice::<impl \[.*\]>::(len|is_empty)$", h_vec_len)
+    add(r"^<Vec<.*> as Deref(Mut)?>::deref(_mut)?$", h_vec_deref)
+    add(r"^<Vec<.*> as (core::ops::)?Index<usize>>::index$", h_vec_index)
+    add(r"^core::slice::<impl \[.*\]>::get::<usize>$|^Vec::<.*>::get::<usize>$", h_slice_get)
+    add(r"^Vec::<.*>::(push|insert|remove)$", h_vec_mut)
+    add(r"^core::slice::<impl \[.*\]>::iter$|^<&\[.*\] as IntoIterator>::into_iter$|^<&Vec<.*> as IntoIterator>::into_iter$", h_slice_iter)
+    add(r"^<core::slice::Iter<.*> as Iterator>::enumerate$", h_iter_enumerate)
+    add(r"^<core::slice::Iter<.*> as Iterator>::skip$|^<Enumerate<.*> as Iterator>::skip$", h_iter_skip)
+    add(r"^<(Enumerate<)?core::slice::Iter<.*>>? as IntoIterator>::into_iter$|^<Skip<.*> as IntoIterator>::into_iter$", h_identity_keep)
+    add(r"^<(Enumerate<|Skip<Enumerate<|Skip<)?core::slice::Iter<.*>>?>? as Iterator>::next$", h_iter_next)
+    add(r"^(core::result::)?Result::<.*>::(is_err|is_ok)$", h_result_is)
+    add(r"^<(core::result::)?Result<.*> as Try>::branch$", h_result_branch)
+    add(r"^<(core::result::)?Result<.*> as FromResidual<.*>>::from_residual$", h_result_from_residual)
+    add(r"^(log::)?max_level$", h_log_max_level)
+    add(r"^<log::Level as PartialOrd<LevelFilter>>::le$", h_log_le)
+    add(r"^<char as PartialEq>::(eq|ne)$", h_char_eq)
+    add(r"^core::slice::<impl \[char\]>::contains$", h_slice_contains)
+    add(r"^Arguments::<'_>::(from_str|new|new_const)(::<.*>)?$|^log::__private_api::\w+(::<.*>)?$", h_opaque)
